@@ -136,6 +136,10 @@ def run(ctx):
             else:
                 ctx.count('second-process:identical')
     user_data(ctx)
+    # formulation is a function of what was declared, also when declared in stages on the lp/socp/gcp layers used directly
+    from harness.props import c09
+    for k in range(ctx.n(40, 600)):
+        c09.direct_layers(ctx, int(ctx.rng.integers(2 ** 31)))
 
 
 def user_data(ctx):
